@@ -9,6 +9,7 @@ from __future__ import annotations
 
 import signal
 import traceback
+import warnings
 
 import networkx as nx
 import numpy as np
@@ -536,6 +537,18 @@ class Sim:
                 self.count(f"c11_{kind}_{out.get('reason', out.get('exc'))}")
                 self.case(kind, out.get("exc"), out.get("reason"), tuple(tags), observe.shape_hash(tr))
             if changed:
+                if self.active("C02"):
+                    # a refused edit is no step on the timeline: the state has to be the
+                    # current timeline state still ("the tracks state always equals ...")
+                    d = observe.canon_diff(pre["canon"], post)
+                    self.violate("C02", "C02.timeline.refused", f"{kind} raised {out.get('exc')} (no step on the timeline) but the state changed: {d[:3]}", op, tags, out.get("exc"))
+                    return
+                if self.active("C07") and self.with_seg:
+                    # "after any sequence of user actions": also after one that was refused
+                    # and whose painted pixels the caller has put back
+                    for o, m in oracles.seg_correspondence(tr):
+                        self.violate("C07", o, f"after refused {kind}: {m}", op, tags)
+                        return
                 self.guard("refused_edit_changed_state", f"{kind} {out.get('exc')}")
             if self.active("C20") and new_em:
                 self.violate("C20", "C20.count", f"refused {kind} emitted {len(new_em)} refresh signal(s)", op, tags)
@@ -914,10 +927,28 @@ class Sim:
         if extra:
             out.update(extra)
         try:
-            action = fn()
+            if op.get("werror"):
+                # fault: this process runs with warnings escalated to errors (python -W
+                # error, pytest's filterwarnings=error): every warning site inside the
+                # action is a point where it can be refused, and a refused action must
+                # leave nothing behind
+                out["tags"].append("warnings_as_errors")
+                with warnings.catch_warnings():
+                    # the categories the library itself issues; numeric RuntimeWarnings of
+                    # the dependencies on small masks are not what this fault is about
+                    warnings.simplefilter("error", UserWarning)
+                    for cat in (DeprecationWarning, FutureWarning):
+                        # deprecations attributed to the library's own modules (not numpy's
+                        # or skimage's internal ones)
+                        warnings.filterwarnings("error", category=cat, module=r"funtracks(\.|$)")
+                    action = fn()
+            else:
+                action = fn()
         except StepTimeout:
             raise
         except Exception as e:  # noqa: BLE001
+            if isinstance(e, Warning):
+                self.count("f5_warning_refused_" + type(e).__name__)
             if _from_dependency(e):
                 # a dependency (skimage/numpy) cannot compute a feature for this mask:
                 # outside every listed property (DESIGN §9); the run is discarded, counted
